@@ -107,6 +107,14 @@ fn kernel_placed(cx: &mut Ctx, case: &Value, pl: Place, want3: bool, want11: boo
             if got == want { cx.ok("point_in_triangle"); } else { cx.bad("C03", "point_in_triangle", case, json!({"what": "Triangle::coordinate_position", "got": got, "want": want})); }
             let got = tri.intersects(&c);
             if got == (want != "E") { cx.ok("point_in_triangle"); } else { cx.bad("C03", "point_in_triangle", case, json!({"what": "Triangle::intersects(coord)", "got": got, "want": want != "E"})); }
+            // the same triangle stored in the other vertex orders (the tuple constructor and From keep the order given: clockwise too)
+            for (tn, t) in [("Triangle(a, apex, b)", Triangle(a, apex, b)), ("Triangle(b, a, apex)", Triangle(b, a, apex)), ("Triangle::from([apex, a, b])", Triangle::from([apex, a, b]))] {
+                use geo::Contains;
+                let got = (pos_char(t.coordinate_position(&c)), t.intersects(&c), t.contains(&c));
+                if got == (want, want != "E", want == "I") { cx.ok("point_in_triangle_any_order"); } else {
+                    cx.bad("C03", "point_in_triangle_any_order", case, json!({"what": format!("{tn}: coordinate_position / intersects / contains"), "got": format!("{got:?}"), "want": want}));
+                }
+            }
             let d = pl.lat(&case["d"]);
             let meets = case["seg_meets"].as_bool().unwrap();
             let got = Line::new(a, b).intersects(&Line::new(c, d));
